@@ -219,7 +219,7 @@ def scen_valid(env, gmax, first=None, with_override=False, small=False, g0max=No
     env.obs('valid', spec)
 
 
-INVALID = ['unknown-name', 'unknown-not', 'foreign-block', 'event-dest-cblock', 'filter-wrong-kind', 'missing-input',
+INVALID = ['unknown-name', 'unknown-not', 'foreign-block', 'foreign-event-dest', 'foreign-filter-block', 'event-dest-cblock', 'filter-wrong-kind', 'missing-input',
            'wrong-shape-not', 'wrong-shape-override', 'duplicate-name', 'connect-twice', 'event-unknown-dest',
            'reserved-underscore', 'double-underscore-not', 'multiple-as-single', 'single-as-group', 'no-inputs']
 
@@ -247,6 +247,14 @@ def scen_invalid(env, which):
             edzed.And('c').connect('_not_nope')
         elif which == 'foreign-block':
             edzed.And('c').connect(s0, foreign)
+        elif which == 'foreign-event-dest':
+            # a block OBJECT of another circuit as event destination / filter control block; nothing is sent
+            # during the start, so only construction or the start itself can refuse it
+            Settable('t', on_output=edzed.Event(foreign, 'put'))
+        elif which == 'foreign-filter-block':
+            k = env.choose(3, 'filter')
+            flt = [edzed.IfOutput, edzed.NotIfInitialized, lambda b: edzed.DataEdit.add_output('k', b)][k](foreign)
+            Settable('t', on_output=edzed.Event(s0, 'put', efilter=flt))
         elif which == 'event-dest-cblock':
             c = edzed.And('c').connect(s0)
             by = env.choose(2, 'by_name')
